@@ -342,3 +342,60 @@ def c08_f(ctx):
     ctx.check(ok, g, 'gradient differentiates logpdf', 'numgrad(self.logpdf, x_i)',
               'gradient_logpdf does not differentiate self.logpdf', fn=g,
               node=cs[0] if cs else g.node)
+
+
+@obligation('C08-g', 'T3 T8', 'the requested parameter order is kept as given; the default log '
+            'density is the plain logarithm of the density', floor=3,
+            necessary='a re-ordered name list binds query columns to other parameters; a masked '
+                      'logarithm is -inf where the density is positive')
+def c08_g(ctx):
+    mp = ctx.cls(MP)
+    init = ctx.own_method(mp, '__init__')
+    ex = ctx.ex(init)
+    st = [s for (s, t, k) in ctx.stores(init, 'self.parameter_names') if isinstance(s, ast.Assign)]
+    if not st:
+        raise AnchorMissing('ModelPrior never stores parameter_names')
+    given = 0
+    for s in st:
+        v = ex.term(s.value)
+        alts = v[1] if v[0] == 'phi' else (v,)
+        for a in alts:
+            if a == ('param', 'parameter_names'):
+                given += 1
+                ok = any(pol and match(t, pattern('isinstance(parameter_names, list)')) is not None
+                         for (t, pol, _) in ctx.guards(init, s)) or \
+                    any(pol is False and match(t, pattern('parameter_names is None')) is not None
+                        for (t, pol, _) in ctx.guards(init, s))
+                ctx.check(ok, init, 'requested order kept as given',
+                          'self.parameter_names = parameter_names', '', fn=init, node=s)
+            elif match(a, pattern('_m.parameter_names')) is not None:
+                ok = any(pol and match(t, pattern('parameter_names is None')) is not None
+                         for (t, pol, _) in ctx.guards(init, s))
+                ctx.check(ok, init, 'model order only when no order was requested',
+                          'model.parameter_names when parameter_names is None',
+                          'the model\'s own order replaces a requested order', fn=init, node=s)
+            else:
+                ctx.bad(init, 'requested order kept as given',
+                        'self.parameter_names is {} - neither the list as given nor the model\'s '
+                        'list when none was given'.format(show(a)[:100]), fn=init, node=s)
+    ctx.check(given >= 1, init, 'a requested list is used', 'the given list is stored',
+              'a requested parameter list is never stored as given', fn=init, node=st[0])
+    # default logpdf of the distribution interface
+    sd = ctx.cls('elfi.model.extensions:ScipyLikeDistribution')
+    lp = ctx.own_method(sd, 'logpdf')
+    exl = ctx.ex(lp)
+    rr = returns(lp)
+    ok = False
+    if len(rr) == 1:
+        t = exl.term(rr[0].value)
+        m = match(t, pattern('np.log(_p)'))
+        ok = m is not None and t[0] == 'call' and not t[3] and len(t[2]) == 1 and \
+            match(m['p'], pattern('this.pdf(x, *params, **kwargs)')) is not None
+        if not ok and m is not None:
+            pc = m['p']
+            ok = t[0] == 'call' and not t[3] and len(t[2]) == 1 and pc[0] == 'call' and \
+                pc[1] == ('attr', ('param', lp.params[0]), 'pdf')
+    ctx.check(ok, lp, 'default logpdf = log(pdf)', 'np.log(this.pdf(x, *params, **kwargs))',
+              'the inherited logpdf is not the plain logarithm of pdf (masked or floored '
+              'logarithms return -inf where the density is positive)', fn=lp,
+              node=rr[0] if rr else lp.node)
